@@ -331,6 +331,9 @@ def c16_nontrivial(inp, outp):
     t = toks(inp)
     if t[0] == 'c16grid':
         return outp.startswith('accept')
+    if t[0] == 'c16loc':
+        # at least one file exists, so there is a choice to get wrong
+        return t[1] == '1' or '1' in t[2]
     # an accepted configuration in which at least one layer says something
     return outp.startswith('ok') and (t[4] not in ('-', 'D') or t[5] != '-')
 
